@@ -56,6 +56,60 @@ def codec_c17(tier, seed):
     return jobs
 
 
+# ------------------------------------------------------------------------------------------------ S2: source trees
+def O(text, name='a.js'): return {'kind': 'orig', 'text': text, 'name': name}
+def RS(text): return {'kind': 'rawstr', 'text': text}
+def R(text): return {'kind': 'raw', 'text': text}
+def RB(text): return {'kind': 'rawbuf', 'text': text}
+def CC(*ch): return {'kind': 'concat', 'children': list(ch)}
+def BX(x): return {'kind': 'boxed', 'inner': x}
+
+
+TREES_QUICK = [
+    ('orig4', O('????')),
+    ('rawstr4', RS('!!!!')), ('raw4', R('!!!!')), ('rawbuf3', RB('!!!')),
+    ('concat[orig2,rawstr2]', CC(O('??'), RS('!!'))),
+    ('concat[rawstr2,orig2]', CC(RS('!!'), O('??'))),
+    ('concat[orig2,orig2b]', CC(O('??'), O('??', 'b.js'))),
+    ('concat[orig1,orig1 same file]', CC(O('a?'), RS('!'), O('a?'))),
+    ('nested[[orig2,rawstr1],rawstr1]', CC(BX(CC(O('??'), RS('!'))), RS('!'))),
+    ('nested[[rawstr1,orig2],orig1b]', CC(BX(CC(RS('!'), O('??'))), O('?', 'b.js'))),
+    ('nested[rawstr1,[orig2,rawstr1]]', CC(RS('!'), BX(CC(O('??'), RS('!'))))),
+    ('concat[orig2,empty,rawstr1]', CC(O('??'), RS(''), RS('!'))),
+    ('concat[empty,orig2,empty]', CC(RS(''), O('??'), O('', 'e.js'))),
+    ('single[orig3]', CC(O('???'))),
+    ('empty[]', CC()),
+]
+TREES_THOROUGH = [
+    ('orig5', O('?????')),
+    ('orig4/t', O('????'), 't'),
+    ('concat[orig3,rawstr2]', CC(O('???'), RS('!!'))),
+    ('concat[orig2,rawstr1,orig2b]', CC(O('??'), RS('!'), O('??', 'b.js'))),
+    ('nested[[orig2,rawstr1],[rawstr1,orig2b]]', CC(BX(CC(O('??'), RS('!'))), BX(CC(RS('!'), O('??', 'b.js'))))),
+    ('nested3[[[orig2,rawstr1]],rawstr1]', CC(BX(CC(BX(CC(O('??'), RS('!'))))), RS('!'))),
+    ('concat[orig2,raw2,rawbuf2]', CC(O('??'), R('!!'), RB('!!'))),
+    ('concat[orig2,empty,empty,rawstr1]', CC(O('??'), RS(''), O('', 'e.js'), RS('!'))),
+]
+
+
+def tree_jobs(props):
+    def f(tier, seed):
+        jobs = []
+        for t in TREES_QUICK:
+            jobs.append(J('tree:' + t[0], 'jobs.streams:tree_job', dict(tree=t[1], props=props, alphabet=t[2] if len(t) > 2 else 'q'), timeout=420))
+        if tier == 'thorough':
+            for t in TREES_THOROUGH:
+                jobs.append(J('tree:' + t[0], 'jobs.streams:tree_job', dict(tree=t[1], props=props, alphabet=t[2] if len(t) > 2 else 'q'), required=False, timeout=2400))
+        return jobs
+    return f
+
+
+TREE_BOUNDS = {'quick': 'source trees of the catalog lib/props.py:TREES_QUICK - leaves OriginalSource / RawSource / RawStringSource / RawBufferSource with <= 4 symbolic bytes per tree over the alphabet {a ; } space \\n} (raw leaves: {a, \\n}), ConcatSource with <= 3 children, nested boxed ConcatSource to depth 2, empty children; all four (columns x final) streams, source(), map() for both column settings',
+               'thorough': 'as quick plus TREES_THOROUGH: <= 5 symbolic bytes, alphabet with { and tab, depth 3, <= 4 children'}
+TREE_OUTSIDE = 'longer texts, other characters than the alphabet classes (line break / brace / blank / other), deeper trees than the catalog (argued by the contract-children induction of DESIGN 4.2, not machine-checked), non-ASCII text'
+TREE_ASSUME = ['symbolic text bytes range over the stated ASCII alphabet; the oracles depend only on character classes, which every explored path is checked to determine',
+               'Rope is used by contract "behaves as the flat string" (textmodel.py); the real rope.rs is the subject of C16']
+
 PROPS = {
     'C12': dict(jobs=[codec_c12],
                 bounds={'quick': 'encode_vlq: all u32 a,b with |a-b| < 2^30; decoder vs format: skeletons of <= 3 segments, <= 3 digits per field, every digit symbolic; '
@@ -64,6 +118,10 @@ PROPS = {
                 outside='sequences longer than 3 mappings; simultaneous large values in several fields (argued by field independence, not discharged); deltas >= 2^30',
                 assumptions=['input mapping sequences are strictly sorted by generated position with lines >= 1 and original lines >= 1',
                              'decoder-vs-format jobs assume non-negative running values below 2^31 (as the property states)']),
+    'C01': dict(jobs=[tree_jobs(['C01'])], bounds=TREE_BOUNDS, outside=TREE_OUTSIDE + '; ReplaceSource / CachedSource / SourceMapSource trees until their stages are registered', assumptions=TREE_ASSUME),
+    'C02': dict(jobs=[tree_jobs(['C02'])], bounds=TREE_BOUNDS, outside=TREE_OUTSIDE + '; ReplaceSource / CachedSource / SourceMapSource trees until their stages are registered', assumptions=TREE_ASSUME),
+    'C03': dict(jobs=[tree_jobs(['C03'])], bounds=TREE_BOUNDS, outside=TREE_OUTSIDE, assumptions=TREE_ASSUME),
+    'C04': dict(jobs=[tree_jobs(['C04'])], bounds=TREE_BOUNDS, outside=TREE_OUTSIDE, assumptions=TREE_ASSUME),
     'C17': dict(jobs=[codec_c17],
                 bounds={'quick': 'decoder: inductive step over ONE byte (all 256 values) from every decoder state satisfying the stated invariant - covers strings of every length < 2^31; '
                                  'plus all byte strings of length <= 3 and continuation runs of 12/13/14/20 digits in each of the 5 field slots, debug and release MIR',
